@@ -9,32 +9,40 @@ from props import c12_util as U
 PROP = "C12"
 LEVEL = "proof"
 GEN_UNITS = ["GenHandles", "GenFgSetup", "GenKernels"]
-COQ_TARGETS = ["Props/C12.vo", "Model/C12Harness.vo", "Proofs/C12Mttkrps.vo", "Proofs/C12Setup.vo", "Proofs/C12GenTie.vo", "Model/Harness.vo"]
+COQ_TARGETS = ["Props/C12.vo", "Model/C12Harness.vo", "Proofs/C12Mttkrps.vo", "Proofs/C12Setup.vo", "Proofs/C12GenTie.vo", "Proofs/C12Reshape.vo", "Proofs/C12KrTie.vo", "Model/Harness.vo"]
 THEOREM_FILES = ["Props/C12.v"]
 COQ_IMPORTS = ("From Coq Require Import List ZArith Bool QArith Qcanon.\n"
-               "From PV Require Import Base.Index Np.Array Model.Sparse Model.Repr Model.Harness Model.C12Gcp Model.C12Harness Proofs.C12Mttkrps.\n"
+               "From PV Require Import Base.Index Np.Array Model.Sparse Model.Repr Model.Harness Model.C12Gcp Model.C12Harness Proofs.C12Mttkrps Proofs.C12Reshape.\n"
                "Set Warnings \"-ambiguous-paths\".\nFrom PV Require Import Proofs.C12Setup.\n")
 RULE = ("N-way shapes (N = 2..4, sizes 1..4, singleton modes, <= 48 cells) plus skewed 4-way shapes on both sides of min_split "
         "((6,2,2,3), (2,2,3,8), (4,1,2,2), (2,2,2,5)) and 5-way shapes, ranks 1..3, integer factors / data / masks, "
         "component-weight vectors all-ones / mixed (some exactly 1, some not) / all-non-unit under lambda_check True and False, "
         "4 polynomial (loss, derivative) pairs so float64 results are exact; samples with repeats and correction ranges; "
+        "memory layouts (data array C / F / strided view handed to the tensor constructor, factor matrices C / F / strided view, weight "
+        "array C / F / view, handles returning C-ordered arrays); degenerate operands (weight arrays all zero / zero but one cell, sparse "
+        "data with no stored entry / one entry, exact fits, 1x1 / 3x1 / singleton-mode 5-way shapes, sample sets with 0 / 1 samples / one "
+        "subscript repeated, correction range None / all / empty); every returned matrix must be a 2-D array of the size of its factor; "
         "the ten real losses at a grid of rational points through an evaluator of the generated Gallina text; "
         "non-trivial = more than one cell and data and factors not all zero; distinct = distinct (op,args)")
 EXPLANATION = ("T1 theorems are stated over Gen/GenHandles.v, regenerated from pyttb/gcp/handles.py on this run. "
                "R is not computable in Coq, so the numeric tie of the ten real handles is: the generated Gallina text is "
                "parsed and evaluated by tools/props/c12_util.py (an evaluator independent of the translator) and compared at "
                "1e-9 with pyttb's handles at the same points. fg.evaluate / fg_est.estimate / tensor.mttkrps are compared "
-               "exactly (integers) with the executable model Model/C12Gcp.v, about which T2 is proved; estimate_lam = fg_est.estimate on "
-               "models with all-ones / mixed / all-non-unit component weights under both lambda_check settings, compared with the exact "
-               "evaluation of the same model (1e-9, the normalisation introduces square roots); setup = fg_setup.setup over all ten "
-               "objectives against the table of Proofs/C12Setup.v.")
-CORRESPONDENCE_ONLY = ["tensor.mttkrps: the byte-level numpy reshapes (the split / partial-contraction algorithm itself is proved equal to the "
-                       "per-mode definition for every split index in Proofs/C12Mttkrps.v at the level of partial contractions; that model, "
-                       "evaluated at min_split, is compared with pyttb on generated inputs incl. skewed 4-way and 5-way shapes)",
-                       "fg_setup.setup: the executable acceptance check on concrete data (value classes) is a hand model tied by correspondence; "
+               "exactly (integers) with the executable model Model/C12Gcp.v, about which T2 is proved; op evaluate demands the exact "
+               "partial derivatives (weights[r] * MTTKRP column r, C12_gradient_weighted; mismatches on models with component weights "
+               "are the known finding C12-W1), op evaluate_struct on the same weighted models checks the objective and 'all modes at once = "
+               "per-mode MTTKRPs of the derivative array'; op mttkrps evaluates the byte-level model mttkrps_b (flat F-order list, reshape "
+               "index arithmetic, Khatri-Rao row lists; Proofs/C12Reshape.v) at min_split next to the per-mode definition; "
+               "estimate_lam = fg_est.estimate on models with all-ones / mixed / all-non-unit component weights under both lambda_check "
+               "settings, compared with the exact evaluation of the same model (1e-9, the normalisation introduces square roots); "
+               "setup = fg_setup.setup over all ten objectives against the table of Proofs/C12Setup.v.")
+CORRESPONDENCE_ONLY = ["fg_setup.setup: the executable acceptance check on concrete data (value classes) is a hand model tied by correspondence; "
                        "the table itself (handles, bound, parameter, which valid_* flag) is proved equal to the generated Gen/GenFgSetup.v",
-                       "fg_est.estimate(lambda_check=True): ktensor.normalize(0) is taken as 'unit column norms, weight * norms absorbed into mode 0' "
-                       "(norms computed by the harness), everything downstream is the exact model"]
+                       "fg_est.estimate(lambda_check=True): that ktensor.normalize(0) IS a column rescaling whose factors multiply to the weights "
+                       "(norms computed by the harness; normalize itself is not the subject of C12); everything downstream of that fact is proved "
+                       "for every such rescaling (C12_lambda_values / _estimate / _exact / _mttkrp_scale)",
+                       "tensor.mttkrps / mttv_left / mttv_mid: the byte-level model mttkrps_b is a hand transliteration (not translator-generated), "
+                       "tied by correspondence at min_split; its Khatri-Rao row lists are proved to be what the generated khatrirao returns"]
 ASSUMPTIONS = ["models have at least two modes (fg.evaluate and fg_est.estimate raise on 1-way models)",
                "real functions ln/exp/PI are the mathematical ones; EPS is the exact rational 1/10^10; IEEE rounding not modelled"]
 
@@ -43,6 +51,27 @@ NFID = 4
 
 def _rand_factors(rng, shape, R, lo=-2, hi=2):
     return [[[rng.randint(lo, hi) for _ in range(R)] for _ in range(d)] for d in shape]
+
+
+def _mask(rng, mask, n):
+    """weight / mask arrays: None, 0/1, small integers, all zero, zero except one cell"""
+    if mask is None:
+        return None
+    if mask == "zero":
+        return [0] * n
+    if mask == "one0":
+        w = [0] * n
+        w[rng.randrange(n)] = rng.choice([1, 2, -1])
+        return w
+    return [rng.randint(0, 1) if mask == "01" else rng.randint(-1, 2) for _ in range(n)]
+
+
+def _lay(rng):
+    """memory layouts: data array handed to the tensor constructor, factor matrices, weight array, arrays returned by the handles"""
+    if rng.random() < 0.4:
+        return {"data": "F", "fac": "C", "w": "F", "h": "F"}
+    return {"data": rng.choice(["F", "C", "view"]), "fac": rng.choice(["C", "F", "view"]),
+            "w": rng.choice(["F", "C", "view"]), "h": rng.choice(["F", "C"])}
 
 
 def gen_cases(rng, tier):
@@ -63,25 +92,65 @@ def gen_cases(rng, tier):
             fac = _rand_factors(rng, shp, R)
             lam = [1] * R if rng.random() < 0.6 else [rng.randint(-2, 3) for _ in range(R)]
             data = tgen.rand_dense(rng, shp, rng.choice([0.3, 0.7, 1.0]), -3, 4)
-            mask = rng.choice([None, "01", "int"])
-            w = None if mask is None else [rng.randint(0, 1) if mask == "01" else rng.randint(-1, 2) for _ in range(n)]
+            mask = rng.choice([None, "01", "int", "zero", "one0"])
+            w = _mask(rng, mask, n)
             fid = rng.randrange(NFID)
             nt = n > 1 and any(data) and any(any(any(r) for r in A) for A in fac)
             sparse_data = rng.random() < 0.3
-            cases.append(Case("evaluate", {"shape": list(shp), "R": R, "factors": fac, "lam": lam, "data": data,
-                                           "w": w, "fid": fid, "sparse": sparse_data}, nt))
+            ev = {"shape": list(shp), "R": R, "factors": fac, "lam": lam, "data": data,
+                  "w": w, "fid": fid, "sparse": sparse_data, "lay": _lay(rng)}
+            cases.append(Case("evaluate", ev, nt))
+            if any(x != 1 for x in lam):
+                # models with component weights: objective + "all modes at once = the per-mode MTTKRPs of the derivative array"
+                # (holds whatever the weights; the derivative clause itself is checked by op evaluate, finding C12-W1)
+                cases.append(Case("evaluate_struct", dict(ev), nt))
             # sampled estimator: random sample with repeats, integer weights, optional correction range
-            ns = rng.randint(1, 7)
+            ns = rng.choice([1, 1, 2, 3, 4, 5, 6, 7])
             subs = [[rng.randrange(d) for d in shp] for _ in range(ns)]
             xs = [rng.randint(-3, 4) for _ in range(ns)]
             ws = [rng.randint(-1, 3) for _ in range(ns)]
             crng = None if rng.random() < 0.5 else list(range(rng.randint(0, ns)))
             cases.append(Case("estimate", {"shape": list(shp), "R": R, "factors": fac, "lam": lam, "subs": subs,
-                                           "xs": xs, "ws": ws, "crng": crng, "fid": rng.randrange(NFID)}, nt))
+                                           "xs": xs, "ws": ws, "crng": crng, "fid": rng.randrange(NFID), "lay": _lay(rng)}, nt))
             # estimator on every subscript once with unit weights == exact evaluation
             cases.append(Case("estimate_full", {"shape": list(shp), "R": R, "factors": fac, "data": data,
-                                                "fid": rng.randrange(NFID)}, nt))
-            cases.append(Case("mttkrps", {"shape": list(shp), "R": R, "factors": fac, "data": data}, nt))
+                                                "fid": rng.randrange(NFID), "lay": _lay(rng)}, nt))
+            cases.append(Case("mttkrps", {"shape": list(shp), "R": R, "factors": fac, "data": data, "lay": _lay(rng)}, nt))
+    # degenerate operands: weight arrays that are all zero / zero but one cell, data that are sparse tensors with no stored entry or
+    # exactly one, exact fits (data = model values), every memory layout of data / weight array / factor matrices / handle results
+    deg_shapes = [(2, 3), (3, 1), (1, 1), (2, 2, 2), (1, 3, 2), (2, 1, 2, 2), (2, 2, 1, 2, 2), (3, 2, 2, 2)]
+    for shp in deg_shapes if not big else deg_shapes * 3:
+        n = math.prod(shp)
+        R = rng.randint(1, 3)
+        fac = _rand_factors(rng, shp, R)
+        for kind in ("empty", "one", "fit", "dense"):
+            if kind == "empty":
+                data = [0] * n
+            elif kind == "one":
+                data = [0] * n
+                data[rng.randrange(n)] = rng.choice([-3, 2, 4])
+            elif kind == "fit":
+                data = [sum(math.prod(A[i[l]][r] for l, A in enumerate(fac)) for r in range(R)) for i in tgen.all_subs(shp)]
+            else:
+                data = tgen.rand_dense(rng, shp, 1.0, -3, 4)
+            for mask in (("zero", "one0", None, "01") if big else ("zero", rng.choice(["one0", None, "01"]))):
+                lay = {"data": rng.choice(["F", "C", "view"]), "fac": rng.choice(["C", "F", "view"]),
+                       "w": rng.choice(["F", "C", "view"]), "h": rng.choice(["F", "C"])}
+                cases.append(Case("evaluate", {"shape": list(shp), "R": R, "factors": fac, "lam": [1] * R, "data": data,
+                                               "w": _mask(rng, mask, n), "fid": rng.randrange(NFID),
+                                               "sparse": kind in ("empty", "one") or rng.random() < 0.3, "lay": lay}, n > 1))
+            lay = {"data": rng.choice(["F", "C", "view"]), "fac": rng.choice(["C", "F", "view"]), "w": "F", "h": "F"}
+            cases.append(Case("mttkrps", {"shape": list(shp), "R": R, "factors": fac, "data": data, "lay": lay}, n > 1 and any(data)))
+            cases.append(Case("estimate_full", {"shape": list(shp), "R": R, "factors": fac, "data": data,
+                                                "fid": rng.randrange(NFID), "lay": lay}, n > 1))
+        # sample sets with no sample / one sample / one subscript repeated, with and without the correction range
+        for ns, rep in ((0, False), (1, False), (3, True), (2, False)):
+            one = [rng.randrange(d) for d in shp]
+            subs = [list(one) if rep else [rng.randrange(d) for d in shp] for _ in range(ns)]
+            for crng in (None, list(range(ns)), []):
+                cases.append(Case("estimate", {"shape": list(shp), "R": R, "factors": fac, "lam": [1] * R, "subs": subs,
+                                               "xs": [rng.randint(-3, 4) for _ in range(ns)], "ws": [rng.randint(-1, 3) for _ in range(ns)],
+                                               "crng": crng, "fid": rng.randrange(NFID), "lay": _lay(rng)}, ns > 0))
     # fg_est.estimate and the model's component weights: all-ones / mixed / all-non-unit under both lambda_check settings,
     # on the full subscript set with unit sample weights (compared with the exact evaluation of the same model) and on samples
     lam_shapes = [(2, 3), (3, 2, 2), (2, 2, 3), (4, 2), (2, 2, 2, 2), (3, 1, 2)]
@@ -143,57 +212,120 @@ def _pyfg(fid):
     return f, g
 
 
+_DLAY = {"data": "F", "fac": "C", "w": "F", "h": "F"}
+
+
+def _mat(np, A, R, lay):
+    """factor matrix in a given memory layout: C-contiguous (numpy default), F-contiguous (what pyttb holds), strided view"""
+    base = np.array(A, dtype=float).reshape((len(A), R))
+    if lay == "F":
+        return np.asfortranarray(base)
+    if lay == "view":
+        big = np.full((2 * len(A) + 1, R + 2), 7.0)
+        big[1::2, 1:R + 1] = base
+        return big[1::2, 1:R + 1]
+    return base
+
+
+def _nd(np, shape, data, lay):
+    """N-way array from an F-order value list in a given memory layout"""
+    a = tgen.np_dense(np, shape, data)
+    if lay == "C":
+        return np.ascontiguousarray(a)
+    if lay == "view":
+        big = np.full((2 * shape[0],) + tuple(shape[1:]), 9.0)
+        big[::2] = a
+        return big[::2]
+    return a
+
+
+def _subs(np, rows, N, lay):
+    s = np.array(rows, dtype=int).reshape((len(rows), N))
+    if lay == "F":
+        return np.asfortranarray(s)
+    if lay == "view" and len(rows):
+        big = np.zeros((len(rows), 2 * N), dtype=int)
+        big[:, ::2] = s
+        return big[:, ::2]
+    return s
+
+
+def _obsG(np, G, shape, R):
+    """matrices as returned + whether each one is a 2-D array of the size of its factor matrix"""
+    ok = isinstance(G, (list, tuple)) and len(G) == len(shape) and all(
+        isinstance(x, np.ndarray) and x.shape == (shape[k], R) for k, x in enumerate(G))
+    return [tgen.obs_matrix(np, x) for x in G], bool(ok)
+
+
 def run_impl(c):
+    import logging
     import numpy as np
     import pyttb as ttb
     from pyttb.gcp import fg, fg_est
+    logging.disable(logging.WARNING)      # pyttb logs "Selected no copy, but input data isn't F ordered" for C-ordered handle results
     a = c.args
     try:
         if c.op == "handle":
             return {"vals": U.run_handles(a["name"], a["pts"])}
         if c.op == "setup":
             return U.run_setup(a)
-        fac = [np.array(A, dtype=float).reshape((len(A), a["R"])) for A in a["factors"]]
+        lay = a.get("lay") or _DLAY
+        shp, R = a["shape"], a["R"]
+        mkfac = lambda: [_mat(np, A, R, lay["fac"]) for A in a["factors"]]
+        fac = mkfac()
         if c.op == "mttkrps":
-            T = tgen.mk_tensor(ttb, np, a["shape"], a["data"])
-            G = T.mttkrps([x.copy() for x in fac])
-            one = [T.mttkrp([x.copy() for x in fac], k) for k in range(len(a["shape"]))]
+            T = ttb.tensor(_nd(np, shp, a["data"], lay["data"]))
+            G = T.mttkrps(mkfac())
+            one = [T.mttkrp(mkfac(), k) for k in range(len(shp))]
             from pyttb.tensor import min_split
-            return {"G": [tgen.obs_matrix(np, x) for x in G], "one": [tgen.obs_matrix(np, x) for x in one],
-                    "split": int(min_split(tuple(a["shape"])))}
-        lam = np.array(a.get("lam", [1] * a["R"]), dtype=float)
-        K = ttb.ktensor([x.copy() for x in fac], lam.copy())
-        f, g = _pyfg(a["fid"])
-        if c.op == "evaluate":
-            if a["sparse"]:
-                subs, vals = tgen.dense_to_sparse(a["shape"], a["data"])
-                X = tgen.mk_sptensor(ttb, np, a["shape"], subs, vals)
-            else:
-                X = tgen.mk_tensor(ttb, np, a["shape"], a["data"])
-            w = None if a["w"] is None else tgen.np_dense(np, a["shape"], a["w"])
-            F, G = fg.evaluate(K, X, w, f, g)
-            F1 = fg.evaluate(K, X, None if w is None else w.copy(), f, None)
-            G1 = fg.evaluate(K, X, None if w is None else w.copy(), None, g)
-            return {"F": tgen.exact(F), "G": [tgen.obs_matrix(np, x) for x in G], "F1": tgen.exact(F1),
-                    "G1": [tgen.obs_matrix(np, x) for x in G1]}
+            oG, ok1 = _obsG(np, G, shp, R)
+            o1, ok2 = _obsG(np, one, shp, R)
+            return {"G": oG, "one": o1, "split": int(min_split(tuple(shp))), "dims_ok": ok1 and ok2}
+        lam = np.array(a.get("lam", [1] * R), dtype=float)
+        model = lambda: ttb.ktensor(mkfac(), lam.copy())
+        f0, g0 = _pyfg(a["fid"])
+        if lay["h"] == "C":          # handles that return C-ordered arrays (fg.evaluate wraps the result in a tensor without copying)
+            f, g = (lambda d, m: np.ascontiguousarray(f0(d, m))), (lambda d, m: np.ascontiguousarray(g0(d, m)))
+        else:
+            f, g = f0, g0
+        if c.op in ("evaluate", "evaluate_struct"):
+            def data():
+                if a["sparse"]:
+                    subs, vals = tgen.dense_to_sparse(shp, a["data"])
+                    if not subs:
+                        return ttb.sptensor(shape=tuple(shp))
+                    return tgen.mk_sptensor(ttb, np, shp, subs, vals)
+                return ttb.tensor(_nd(np, shp, a["data"], lay["data"]))
+            w = lambda: None if a["w"] is None else _nd(np, shp, a["w"], lay["w"])
+            F, G = fg.evaluate(model(), data(), w(), f, g)
+            F1 = fg.evaluate(model(), data(), w(), f, None)
+            G1 = fg.evaluate(model(), data(), w(), None, g)
+            oG, ok1 = _obsG(np, G, shp, R)
+            oG1, ok2 = _obsG(np, G1, shp, R)
+            return {"F": tgen.exact(F), "G": oG, "F1": tgen.exact(F1), "G1": oG1, "dims_ok": ok1 and ok2}
         if c.op == "estimate_lam":
             return U.run_estimate_lam(a, fac, f, g)
         if c.op == "estimate":
-            subs = np.array(a["subs"], dtype=int).reshape((len(a["subs"]), len(a["shape"])))
+            subs = lambda: _subs(np, a["subs"], len(shp), lay["data"])
             xs = np.array(a["xs"], dtype=float)
             ws = np.array(a["ws"], dtype=float)
-            crng = None if a["crng"] is None else np.array(a["crng"], dtype=int)
-            F, G = fg_est.estimate(K, subs.copy(), xs.copy(), ws.copy(), f, g, False, crng)
-            return {"F": tgen.exact(F), "G": [tgen.obs_matrix(np, x) for x in G]}
+            crng = lambda: None if a["crng"] is None else np.array(a["crng"], dtype=int)
+            F, G = fg_est.estimate(model(), subs(), xs.copy(), ws.copy(), f, g, False, crng())
+            F1 = fg_est.estimate(model(), subs(), xs.copy(), ws.copy(), f, None, False, crng())
+            G1 = fg_est.estimate(model(), subs(), xs.copy(), ws.copy(), None, g, False, crng())
+            oG, ok1 = _obsG(np, G, shp, R)
+            oG1, ok2 = _obsG(np, G1, shp, R)
+            return {"F": tgen.exact(F), "G": oG, "F1": tgen.exact(F1), "G1": oG1, "dims_ok": ok1 and ok2}
         if c.op == "estimate_full":
-            X = tgen.mk_tensor(ttb, np, a["shape"], a["data"])
-            allsubs = tgen.all_subs(a["shape"])
-            subs = np.array(allsubs, dtype=int).reshape((len(allsubs), len(a["shape"])))
+            X = ttb.tensor(_nd(np, shp, a["data"], lay["data"]))
+            allsubs = tgen.all_subs(shp)
+            subs = _subs(np, allsubs, len(shp), lay["data"])
             xs = np.array(a["data"], dtype=float)
-            F, G = fg_est.estimate(K, subs, xs, np.ones(len(allsubs)), f, g, True, None)
-            F2, G2 = fg.evaluate(K, X, None, f, g)
-            return {"F": tgen.exact(F), "G": [tgen.obs_matrix(np, x) for x in G],
-                    "F2": tgen.exact(F2), "G2": [tgen.obs_matrix(np, x) for x in G2]}
+            F, G = fg_est.estimate(model(), subs, xs, np.ones(len(allsubs)), f, g, True, None)
+            F2, G2 = fg.evaluate(model(), X, None, f, g)
+            oG, ok1 = _obsG(np, G, shp, R)
+            oG2, ok2 = _obsG(np, G2, shp, R)
+            return {"F": tgen.exact(F), "G": oG, "F2": tgen.exact(F2), "G2": oG2, "dims_ok": ok1 and ok2}
     except Exception as ex:
         return {"exc": type(ex).__name__, "msg": str(ex)[:200]}
     raise ValueError(c.op)
@@ -221,25 +353,32 @@ def coq_check(c, o):
     As = _gmats(a["factors"])
     if c.op == "estimate_lam":
         return U.check_estimate_lam(a, o, As)
-    if not _ints([v for k, v in o.items()]):
+    if not o.get("dims_ok", True):
+        return "false"
+    if not _ints([v for k, v in o.items() if k != "dims_ok"]):
         return "false"
     if c.op == "mttkrps":
         T = tgen.gdense(shp, a["data"])
         return (f"mats_eqb (zmttkrps {T} {As} {gnat(a['R'])}) {_gmats(o['G'])} && "
                 f"mats_eqb (zmttkrps {T} {As} {gnat(a['R'])}) {_gmats(o['one'])} && "
                 f"Nat.eqb (min_split {gnlist(shp)}) {gnat(o['split'])} && "
-                f"mats_eqb (mttkrps_py Z 0%Z 1%Z Z.add Z.mul {gnlist(shp)} (den_dense 0%Z {T}) {As} {gnat(a['R'])}) {_gmats(o['G'])}")
+                f"mats_eqb (mttkrps_py Z 0%Z 1%Z Z.add Z.mul {gnlist(shp)} (den_dense 0%Z {T}) {As} {gnat(a['R'])}) {_gmats(o['G'])} && "
+                f"mats_eqb (mttkrps_b Z 0%Z Z.add Z.mul {gzlist(a['data'])} {As} (min_split {gnlist(shp)})) {_gmats(o['G'])}")
     fid = gnat(a["fid"])
-    if c.op == "evaluate":
+    if c.op in ("evaluate", "evaluate_struct"):
         K = tgen.gktensor(a["lam"], a["factors"])
         X = tgen.gdense(shp, a["data"])
         w = "None" if a["w"] is None else f"(Some {tgen.gdense(shp, a['w'])})"
-        return (f"Z.eqb (zeval_F {fid} {K} {X} {w}) {gz(o['F'])} && mats_eqb (zeval_G {fid} {K} {X} {w}) {_gmats(o['G'])} && "
+        # evaluate: the matrices must be the exact partial derivatives (weights[r] * MTTKRP column r, C12_gradient_weighted);
+        # evaluate_struct: they must be the per-mode MTTKRPs of the element-wise derivative array
+        gm = "zeval_Gw" if c.op == "evaluate" else "zeval_G"
+        return (f"Z.eqb (zeval_F {fid} {K} {X} {w}) {gz(o['F'])} && mats_eqb ({gm} {fid} {K} {X} {w}) {_gmats(o['G'])} && "
                 f"Z.eqb {gz(o['F1'])} {gz(o['F'])} && mats_eqb {_gmats(o['G1'])} {_gmats(o['G'])}")
     if c.op == "estimate":
         crng = gnlist(a["crng"] or [])
         args = f"{As} {gnat(a['R'])} {gnmat(a['subs'])} {gzlist(a['xs'])} {gzlist(a['ws'])} {crng}"
-        return (f"Z.eqb (zest_F {fid} {args}) {gz(o['F'])} && mats_eqb (zest_G {fid} {args} {gnlist(shp)}) {_gmats(o['G'])}")
+        return (f"Z.eqb (zest_F {fid} {args}) {gz(o['F'])} && mats_eqb (zest_G {fid} {args} {gnlist(shp)}) {_gmats(o['G'])} && "
+                f"Z.eqb {gz(o['F1'])} {gz(o['F'])} && mats_eqb {_gmats(o['G1'])} {_gmats(o['G'])}")
     if c.op == "estimate_full":
         n = math.prod(shp)
         K = tgen.gktensor([1] * a["R"], a["factors"])
@@ -260,6 +399,11 @@ def oracle(c, o):
         return U.compare_handles(a["name"], a["pts"], o["vals"], against_derivative=True)
     if c.op == "setup":
         return U.oracle_setup(a, o)
+    if o.get("dims_ok") is False:
+        return "a returned gradient matrix is not a 2-D array of the size of its factor matrix"
+    for x, y in (("F1", "F"), ("G1", "G")):
+        if c.op in ("evaluate", "evaluate_struct", "estimate") and o[x] != o[y]:
+            return f"requesting only one of (objective, gradients) returns a different {y} than requesting both"
     return U.oracle_tensor(c.op, a, o)
 
 
@@ -281,5 +425,28 @@ def _w_w1():
     return None if G[0][0, 0] == 16 else f"fg.evaluate with model weights [2]: dF/dA_0[0,0] returned {G[0][0, 0]}, the partial derivative is 16"
 
 
-TRIGGERS = {"never": lambda c: False}
-WITNESSES = {"A-34": _w_a34, "C12-W1": _w_w1}
+def _w_w2():
+    import numpy as np
+    import pyttb as ttb
+    from pyttb.gcp import fg_est
+    K = ttb.ktensor([np.ones((2, 2)), np.ones((3, 2))], np.ones(2))
+    try:
+        G = fg_est.estimate(K, np.zeros((0, 2), dtype=int), np.zeros(0), np.zeros(0), None, lambda d, m: 2 * (m - d), False, None)
+    except Exception as ex:
+        return f"fg_est.estimate on an empty sample set with a gradient handle raises {type(ex).__name__}: {ex} (the objective alone returns 0.0)"
+    ok = len(G) == 2 and G[0].shape == (2, 2) and G[1].shape == (3, 2) and not G[0].any() and not G[1].any()
+    return None if ok else f"fg_est.estimate on an empty sample set returned gradients {G}, expected zero matrices"
+
+
+def _t_w1(c):
+    """evaluate on a model with component weights where some returned entry with weight != 1 is nonzero (pure-Python evaluation)"""
+    a = c.args
+    if c.op != "evaluate" or all(x == 1 for x in a["lam"]):
+        return False
+    G = U.brute_grad(a, weighted=False)
+    return any(a["lam"][r] != 1 and v != 0 for M in G for row in M for r, v in enumerate(row))
+
+
+TRIGGERS = {"never": lambda c: False, "weighted_gradient": _t_w1,
+            "empty_sample": lambda c: c.op == "estimate" and len(c.args["subs"]) == 0}
+WITNESSES = {"A-34": _w_a34, "C12-W1": _w_w1, "C12-W2": _w_w2}
